@@ -154,6 +154,8 @@ CLAIMS["C20"] = dict(
 )
 
 NOT_APPLICABLE = {
+    "C01": "end-to-end delivery, order, at-most-once and loss accounting are statements over packet histories crossing goroutines, queues and sockets (schedules): not expressible as a contract on one call or one data structure; the per-call facts underneath are covered by C04 (fresh frame buffers), C16 (queue contracts) and C18 (size limits)",
+    "C05": "the totality half (parsing arbitrary SDP never panics) is within reach of the same sweep as C09, but sdpunmarshaler, description and the 22 format parsers are not under contract with a baseline yet; equality of the re-parsed description is a statement over strings outside the theory used; no partial check is registered",
     "C11": "process-level property over channels, goroutines and timeouts (no deadlock, cleanup of goroutines/sessions): not expressible as a contract on one call or one data structure; the leaf validators it relies on are covered under other properties",
     "C13": "liveness and schedule property (Close returns in bounded time under all interleavings, no leaked goroutine or socket, callback ordering): outside sequential contract-based verification",
 }
